@@ -29,6 +29,7 @@ pub enum P {
     M,
     L,
     D,
+    R,
 }
 
 #[derive(Clone, Copy, Debug, PartialEq, Eq, Hash, PartialOrd, Ord)]
@@ -60,7 +61,7 @@ pub enum Act {
     ExecCl,
 }
 
-const OFFS: [(usize, usize); 2] = [(0x40, 0x50), (0x50, 0x40)];
+const OFFS: [(usize, usize); 3] = [(0x40, 0x50), (0x50, 0x40), (0x0, 0x8)];
 const PKT1: [u8; 16] = [0x41, 1, 2, 3, 4, 5, 6, 7, 8, 9, 10, 11, 12, 13, 14, 15];
 const PKT2: [u8; 9] = [0x42, 1, 2, 3, 4, 5, 6, 7, 8];
 const CALC_VALUE: u16 = 64;
@@ -74,12 +75,15 @@ fn prog_insns(p: P) -> Vec<I> {
         P::M => vec![I::new(0x30, 0, 0, 0, 0), isa::EXIT],                    // ldabsb 0
         P::L => vec![isa::mov64r(6, 10), isa::call_local(3), isa::sub64r(6, 0), isa::mov64r(0, 6), isa::EXIT, isa::mov64r(0, 10), isa::EXIT],
         P::D => vec![isa::ldxdw(0, 1, 0x40), isa::ldxdw(2, 1, 0x50), isa::sub64r(2, 0), isa::mov64r(0, 2), isa::EXIT],
+        // reads the first 8 bytes of the fixed VM's internal buffer: zero in a freshly (re)loaded VM
+        // unless the configured offsets put a packet pointer there
+        P::R => vec![isa::ldxdw(0, 1, 0), isa::EXIT],
     }
 }
 
 fn prog_bytes(p: P) -> &'static [u8] {
     static CELL: OnceLock<Vec<Vec<u8>>> = OnceLock::new();
-    let all = CELL.get_or_init(|| [P::A, P::B, P::H, P::X, P::M, P::L, P::D].iter().map(|p| isa::enc(&prog_insns(*p))).collect());
+    let all = CELL.get_or_init(|| [P::A, P::B, P::H, P::X, P::M, P::L, P::D, P::R].iter().map(|p| isa::enc(&prog_insns(*p))).collect());
     &all[p as usize]
 }
 
@@ -198,8 +202,17 @@ fn value(p: P, helper: Option<F>, kind: K, offs: u8, calc: bool, pkt: &[u8], eng
                 Exp::Any
             } else if offs == 0 {
                 Exp::Val(vec![pkt.len() as u64])
-            } else {
+            } else if offs == 1 {
                 Exp::Val(vec![(pkt.len() as u64).wrapping_neg()])
+            } else {
+                Exp::Err // offsets (0,8): the buffer is 16 bytes, 0x40 is outside
+            }
+        }
+        P::R => {
+            if kind != K::Fixed || offs == 2 {
+                Exp::Any // a raw address (the packet pointer) or not a metadata VM
+            } else {
+                Exp::Val(vec![0])
             }
         }
     }
@@ -459,7 +472,7 @@ fn probe(m: &ApiModel, n: &St, real: &mut RealVm, via: Act) {
     }
     // a failing set_program must change nothing
     if !accepts(n.verifier, P::X) {
-        let o = match vmx.set_program(prog_bytes(P::X), OFFS[1 - n.offs as usize]) {
+        let o = match vmx.set_program(prog_bytes(P::X), OFFS[(n.offs as usize + 1) % 3]) {
             Ok(()) => Obs::Ok,
             Err(e) => Obs::Err(e),
         };
@@ -511,7 +524,7 @@ impl Model for ApiModel {
             for k in &self.cfg.kinds {
                 out.push(Act::New(*k, None));
                 for p in &self.cfg.progs {
-                    if (*p == P::D && *k != K::Fixed) || (*p == P::M && *k == K::NoData) {
+                    if ((*p == P::D || *p == P::R) && *k != K::Fixed) || (*p == P::M && *k == K::NoData) {
                         // M on a VM without packet is an out-of-bounds load: compiled code
                         // (no checks in the JIT, a trap in Cranelift) is outside this property
                         continue;
@@ -522,12 +535,17 @@ impl Model for ApiModel {
             return;
         }
         for p in &self.cfg.progs {
-            if (*p == P::D && s.kind != K::Fixed) || (*p == P::M && s.kind == K::NoData) {
+            if ((*p == P::D || *p == P::R) && s.kind != K::Fixed) || (*p == P::M && s.kind == K::NoData) {
                 continue;
             }
             if s.kind == K::Fixed {
                 out.push(Act::SetProgram(*p, 0));
                 out.push(Act::SetProgram(*p, 1));
+                if *p != P::D {
+                    // D under offsets (0,8) reads outside the 16-byte buffer: compiled code would
+                    // trap / fault, which is outside this property
+                    out.push(Act::SetProgram(*p, 2));
+                }
             } else {
                 out.push(Act::SetProgram(*p, 0));
             }
@@ -580,8 +598,13 @@ impl Model for ApiModel {
             self.actions(&n, &mut next);
             for a2 in next {
                 let (n2, exp2) = step(&n, a2);
-                let (_real2, obs2) = rebuild(&n2.hist);
+                let (mut real2, obs2) = rebuild(&n2.hist);
                 self.probes.fetch_add(1, Ordering::Relaxed);
+                if n2.created && !matches!(a2, Act::Exec | Act::ExecJit | Act::ExecCl) {
+                    // and the state reached that way must behave as the model says (an execution
+                    // followed by a reload must not leave anything of the execution behind)
+                    probe(self, &n2, &mut real2, a2);
+                }
                 if let Some(sym) = matches(&exp2, &obs2.unwrap()) {
                     self.findings.lock().unwrap().push(Finding {
                         sig: format!("api/{}-after-noop-{}/{sym}", act_name(a2), act_name(a)),
@@ -606,16 +629,16 @@ fn cfg_for(tier: Tier, part: usize) -> Cfg {
     match tier {
         Tier::Quick => Cfg {
             kinds: if part == 0 { vec![K::Raw, K::Fixed, K::Mbuff, K::NoData] } else { vec![K::Fixed, K::Mbuff] },
-            progs: if part == 0 { vec![P::A, P::B, P::H, P::X] } else { vec![P::A, P::D, P::X, P::M] },
+            progs: if part == 0 { vec![P::A, P::B, P::H, P::X] } else { vec![P::A, P::D, P::X, P::M, P::R] },
             verifiers: vec![V::DefaultLike, V::AcceptAll, V::RejectAll, V::OnlyB],
-            helpers: vec![F::F],
+            helpers: if part == 0 { vec![F::F, F::G] } else { vec![F::F] },
             calc: false,
             jit: true,
             cl: true,
         },
         Tier::Thorough => Cfg {
             kinds: vec![K::Raw, K::Fixed, K::Mbuff, K::NoData],
-            progs: if part == 0 { vec![P::A, P::B, P::H, P::X, P::M] } else { vec![P::A, P::L, P::D, P::X] },
+            progs: if part == 0 { vec![P::A, P::B, P::H, P::X, P::M] } else { vec![P::A, P::L, P::D, P::X, P::R] },
             verifiers: vec![V::DefaultLike, V::AcceptAll, V::RejectAll, V::OnlyB],
             helpers: vec![F::F, F::G],
             calc: true,
@@ -637,6 +660,7 @@ fn parse_act(s: &str) -> Act {
         "X" => P::X,
         "M" => P::M,
         "L" => P::L,
+        "R" => P::R,
         _ => P::D,
     };
     let k = |x: &str| match x {
@@ -699,7 +723,7 @@ pub fn run(s: &mut Sink) {
     let tier = s.tier;
     s.meta.insert("alphabet".into(), json!({
         "actions": "new(None|prog), set_program(prog[, offsets]), set_verifier(default-like|accept-all|reject-all|only-B), register_helper(f|g), set_stack_usage_calculator, jit_compile, cranelift_compile, execute_program, execute_program_jit, execute_program_cranelift",
-        "programs": {"A": "returns 1", "B": "returns 2", "H": "returns helper 1's value", "X": "call kind 2: rejected by the default verifier, an error in every engine", "M": "ldabsb 0 (depends on the packet)", "L": "local call returning the caller's frame size (calculator)", "D": "fixed VM: data_end - data through the configured offsets"},
+        "programs": {"A": "returns 1", "B": "returns 2", "H": "returns helper 1's value", "X": "call kind 2: rejected by the default verifier, an error in every engine", "M": "ldabsb 0 (depends on the packet)", "L": "local call returning the caller's frame size (calculator)", "D": "fixed VM: data_end - data through the configured offsets", "R": "fixed VM: first 8 bytes of the internal buffer (zero unless the offsets put a pointer there)"},
         "vm_kinds": if tier == Tier::Quick {"part 0: Raw, Fixed; part 1: Fixed, Mbuff"} else {"Raw, Fixed, Mbuff, NoData"},
         "post_state_probe": "execute on two packets, execute_jit, execute_cranelift, a set_program that must fail and change nothing, execute again",
     }));
